@@ -13,6 +13,7 @@ import (
 	"github.com/semihalev/sdns/config"
 	"github.com/semihalev/sdns/internal/dnsutil"
 	"github.com/semihalev/sdns/internal/metric"
+	"github.com/semihalev/sdns/internal/verifhook"
 	"github.com/semihalev/sdns/middleware"
 	"golang.org/x/time/rate"
 )
@@ -49,6 +50,9 @@ func New(cfg *config.Config) *RateLimit {
 
 	// Periodic cleanup of old limiters (every 5 minutes)
 	go func() {
+		if !verifhook.Background() {
+			return
+		}
 		ticker := time.NewTicker(5 * time.Minute)
 		defer ticker.Stop()
 		for range ticker.C {
